@@ -22,6 +22,9 @@ type suite interface {
 
 var suites = map[string]suite{}
 
+// suites whose sessions run in child processes register their in-process runner here
+var childSuites = map[string]func(ops []string, emit func(string)){}
+
 type monitor func(seed int64, tier string) interface{}
 
 var monitors = map[string]monitor{}
@@ -59,6 +62,21 @@ func main() {
 		}
 		w := bufio.NewWriter(os.Stdout)
 		s.Run(ops, func(o string) { fmt.Fprintln(w, o); w.Flush() })
+		w.Flush()
+	case "child":
+		// run the given operations in-process (used by runIsolated)
+		s, ok := childSuites[os.Args[2]]
+		if !ok {
+			os.Exit(2)
+		}
+		var ops []string
+		sc := bufio.NewScanner(os.Stdin)
+		sc.Buffer(make([]byte, 1<<20), 1<<26)
+		for sc.Scan() {
+			ops = append(ops, sc.Text())
+		}
+		w := bufio.NewWriter(os.Stdout)
+		s(ops, func(o string) { fmt.Fprintln(w, o); w.Flush() })
 		w.Flush()
 	case "monitor":
 		m, ok := monitors[os.Args[2]]
